@@ -157,7 +157,7 @@ def install(R):
           notes="unpickles the saved function (cloudpickle) and re-attaches it to the farmer: C06")
     R.add(K + "parse_fn_farmer", result="V", pure=True, assumed=True)
 
-    R.add(K + "Crop._sync_info_from_disk", cls="Crop", result="none", props=["C08", "C04", "C07"],
+    R.add(K + "Crop._sync_info_from_disk", cls="Crop", result="none", props=["C08", "C04", "C07", "C16", "C06"],
           modifies=["self.batchsize", "self.num_batches", "self._batch_remainder", "self.farmer", "self._fn"],
           ensures=[("batching_as_saved", "self.batchsize == mat(fs_content(InfoPath(self.location)), 'batchsize') and "
                                          "self.num_batches == mat(fs_content(InfoPath(self.location)), 'num_batches') and "
@@ -166,7 +166,7 @@ def install(R):
           raises={"XYZError": dict(ensures=["fs_unchanged()"]), "EOFError": dict(ensures=["fs_unchanged()"]), "AnyError": dict(ensures=["fs_unchanged()"])},
           on_raise=[("fs_untouched", "fs_unchanged()")])
 
-    R.add(K + "Crop.calc_progress", cls="Crop", result="none", props=["C08"],
+    R.add(K + "Crop.calc_progress", cls="Crop", result="none", props=["C08", "C16"],
           modifies=["self._num_sown_batches", "self._num_results", "self.batchsize", "self.num_batches", "self._batch_remainder", "self.farmer", "self._fn"],
           ensures=[("counts_files_on_disk", "implies(fs_exists(InfoPath(self.location)), self._num_sown_batches == CountBatches(self.location) and "
                                             "self._num_results == CountResults(self.location))"),
